@@ -190,3 +190,111 @@ Example witnesses_nonvacuous :
   /\ length (bad_sides par0 OpInter sqA sqB sqU) = 12%nat
   /\ length (filter (fun q => stable_inputs par0 sqA sqB q && expected OpInter sqA sqB q) (low_witnesses par0 sqA sqB sqI)) = 8%nat.
 Proof. vm_compute. repeat split. Qed.
+
+(* ================================================================ the clipping optimisation of OverlayNG (wave 8)
+   G  RingClipper::isInsideEdge / intersection / intersectionLineX / intersectionLineY and EdgeNodingBuilder::computeDepthDelta are
+      GENERATED (Gen/RC_..., Gen/ENB_computeDepthDelta; doubles read as rationals, C03/GenPreludeClip);
+   R  the loop of clipToBoxEdge / clip around them is the hand model C03/ClipDefs, run against the real RingClipper::clip by
+      the clip stream of props/C03.py (harness/c03_clip.cpp, ocaml/drv_C03clip.ml). *)
+From Coq Require Import QArith.
+From GeosV Require Import Lib.KernelDefs C07.CCWDefs C03.GenPreludeClip C03.ClipDefs C03.ClipProofs C03.ClipParity.
+From GeosV.Gen Require RC_isInsideEdge RC_intersection ENB_computeDepthDelta.
+
+(* (a) the inside test is the OPEN half-plane of the box edge (never for the null envelope); the intersection point is on the
+   edge line and, when exactly one end is inside, on the closed segment between the ends (hence collinear with them) *)
+Theorem RingClipper_isInsideEdge_spec : forall (st : renv) (e : Z) (p : rpt),
+  RC_isInsideEdge.m_isInsideEdge_2 st p e = true <-> (e_null (f_clipEnv st) = false /\ open_side st e p).
+Proof. exact ClipProofs.inside_spec. Qed.
+Print Assumptions RingClipper_isInsideEdge_spec.
+Theorem RingClipper_intersection_on_edge_line : forall (st : renv) (e : Z) (a b : rpt),
+  on_edge_line st e (RC_intersection.m_intersection_4 st a b e qorigin).
+Proof. exact ClipProofs.xpt_on_line. Qed.
+Print Assumptions RingClipper_intersection_on_edge_line.
+Theorem RingClipper_intersection_on_segment : forall (st : renv) (e : Z) (a b : rpt),
+  RC_isInsideEdge.m_isInsideEdge_2 st a e <> RC_isInsideEdge.m_isInsideEdge_2 st b e ->
+  seg_param a b (RC_intersection.m_intersection_4 st a b e qorigin).
+Proof. exact ClipProofs.xpt_on_segment. Qed.
+Print Assumptions RingClipper_intersection_on_segment.
+Theorem seg_param_collinear : forall a b i : rpt, seg_param a b i -> (rdet a b i == 0)%Q.
+Proof. exact ClipProofs.seg_param_det. Qed.
+Print Assumptions seg_param_collinear.
+Example RingClipper_intersection_nonvacuous :
+  let st := box (0 # 1) (10 # 1) (0 # 1) (10 # 1) in
+  RC_isInsideEdge.m_isInsideEdge_2 st (5 # 1, 5 # 1) 2 = true /\ RC_isInsideEdge.m_isInsideEdge_2 st (8 # 1, 14 # 1) 2 = false /\
+  RC_isInsideEdge.m_isInsideEdge_2 st (5 # 1, 10 # 1) 2 = false /\
+  (let i := RC_intersection.m_intersection_4 st (5 # 1, 5 # 1) (8 # 1, 14 # 1) 2 qorigin in Qred (fst i) = 20 # 3 /\ Qred (snd i) = 10 # 1).
+Proof. vm_compute. repeat split. Qed.
+
+(* (b) one pass *)
+Theorem clipToBoxEdge_in_halfplane : forall st pts e c v, In v (clipToBoxEdge st pts e c) -> closed_side st e v.
+Proof. exact ClipProofs.clipToBoxEdge_side. Qed.
+Print Assumptions clipToBoxEdge_in_halfplane.
+(* the add() calls of the loop contain the inside vertices of the input in their order; add(c, false) only drops a point that
+   equals2D one it keeps; clipToBoxEdge = [close_ring] (dedup (those calls)) by definition *)
+Theorem clipToBoxEdge_keeps_inside_in_order : forall st e pts p0, subseq (filter (inside st e) pts) (clip_raw st e p0 pts).
+Proof. exact ClipProofs.clip_raw_keeps_inside. Qed.
+Print Assumptions clipToBoxEdge_keeps_inside_in_order.
+Theorem dedup_drops_only_repeats : forall l v, In v l -> exists w, In w (dedup l) /\ equals2D w v = true.
+Proof. exact ClipProofs.dedup_cover. Qed.
+Print Assumptions dedup_drops_only_repeats.
+Theorem clipToBoxEdge_inside_unchanged : forall st pts e, (forall v, In v pts -> inside st e v = true) -> norep pts ->
+  clipToBoxEdge st pts e false = pts /\
+  (forall s r, pts = s :: r -> equals2D s (last pts s) = true -> clipToBoxEdge st pts e true = pts).
+Proof. exact ClipProofs.clipToBoxEdge_all_inside. Qed.
+Print Assumptions clipToBoxEdge_inside_unchanged.
+Theorem clipToBoxEdge_result_closed : forall st pts e s r, clipToBoxEdge st pts e true = s :: r -> equals2D s (last (s :: r) s) = true.
+Proof. exact ClipProofs.clipToBoxEdge_closed. Qed.
+Print Assumptions clipToBoxEdge_result_closed.
+
+(* (c) the four passes *)
+Theorem clip_result_in_box : forall st cs v, In v (ClipDefs.clip st cs) -> in_closed_box st v.
+Proof. exact ClipProofs.clip_in_box. Qed.
+Print Assumptions clip_result_in_box.
+Theorem clip_ring_inside_unchanged : forall st s r, e_null (f_clipEnv st) = false -> (forall v, In v (s :: r) -> in_open_box st v) ->
+  norep (s :: r) -> equals2D s (last (s :: r) s) = true -> ClipDefs.clip st (s :: r) = s :: r.
+Proof. exact ClipProofs.clip_inside_unchanged. Qed.
+Print Assumptions clip_ring_inside_unchanged.
+Example clip_nonvacuous :
+  let st := box (0 # 1) (10 # 1) (0 # 1) (10 # 1) in
+  let sq := [(2 # 1, 2 # 1); (2 # 1, 8 # 1); (8 # 1, 8 # 1); (8 # 1, 2 # 1); (2 # 1, 2 # 1)] in
+  ClipDefs.clip st sq = sq /\ forallb (fun v => inside st 0 v && inside st 1 v && inside st 2 v && inside st 3 v) sq = true /\
+  equals2D (2 # 1, 2 # 1) (last sq (2 # 1, 2 # 1)) = true /\
+  length (ClipDefs.clip st [(5 # 1, 5 # 1); (14 # 1, 5 # 1); (14 # 1, 14 # 1); (5 # 1, 14 # 1); (5 # 1, 5 # 1)]) = 5%nat.
+Proof. vm_compute. repeat split. Qed.
+
+(* (d) soundness of the optimisation: for a point q strictly inside the box, the even-odd crossing parity of the ray from q
+   towards +x (RayCrossingCounter's rule; rings read cyclically, as clipToBoxEdge reads them) is the same for the clipped ring
+   and for the original ring — for every input list, every box, every pass and for the four passes together *)
+Theorem clipToBoxEdge_preserves_parity_bottom : forall x0 x1 y0 y1 q pts cr, (y0 < snd q)%Q ->
+  ring_parity q (clipToBoxEdge (box x0 x1 y0 y1) pts 0 cr) = ring_parity q pts.
+Proof. exact ClipParity.clipToBoxEdge_parity_bottom. Qed.
+Theorem clipToBoxEdge_preserves_parity_right : forall x0 x1 y0 y1 q pts cr, (fst q < x1)%Q ->
+  ring_parity q (clipToBoxEdge (box x0 x1 y0 y1) pts 1 cr) = ring_parity q pts.
+Proof. exact ClipParity.clipToBoxEdge_parity_right. Qed.
+Theorem clipToBoxEdge_preserves_parity_top : forall x0 x1 y0 y1 q pts cr, (snd q < y1)%Q ->
+  ring_parity q (clipToBoxEdge (box x0 x1 y0 y1) pts 2 cr) = ring_parity q pts.
+Proof. exact ClipParity.clipToBoxEdge_parity_top. Qed.
+Theorem clipToBoxEdge_preserves_parity_left : forall x0 x1 y0 y1 q pts cr, (x0 < fst q)%Q ->
+  ring_parity q (clipToBoxEdge (box x0 x1 y0 y1) pts 3 cr) = ring_parity q pts.
+Proof. exact ClipParity.clipToBoxEdge_parity_left. Qed.
+Theorem clip_preserves_parity : forall x0 x1 y0 y1 q pts, in_open_box (box x0 x1 y0 y1) q ->
+  ring_parity q (ClipDefs.clip (box x0 x1 y0 y1) pts) = ring_parity q pts.
+Proof. exact ClipParity.clip_parity. Qed.
+Print Assumptions clip_preserves_parity.
+Example clip_preserves_parity_nonvacuous :
+  let r := map rpt_of notch_ring in
+  ClipDefs.clip notch_box r <> r /\ ring_parity (1 # 1, 1 # 1) r = true /\ ring_parity (1 # 1, 1 # 1) (ClipDefs.clip notch_box r) = true /\
+  ring_parity (5 # 1, 1 # 1) r = false /\ ring_parity (5 # 1, 1 # 1) (ClipDefs.clip notch_box r) = false.
+Proof. split. intros H. apply (f_equal (@length _)) in H. vm_compute in H. discriminate. vm_compute. repeat split. Qed.
+
+(* (e) the depth delta comes from the ORIGINAL ring: the generated computeDepthDelta applies Orientation::isCCW (Section variable)
+   to getCoordinatesRO() of its LinearRing argument and follows the table — and it has to: *)
+Theorem computeDepthDelta_reads_original_ring : forall (isCCW : list rpt -> bool) (ring : lring) (isHole : bool),
+  ENB_computeDepthDelta.c_computeDepthDelta_2 isCCW ring isHole = depth_delta_table isHole (isCCW (lr_pts ring)).
+Proof. exact ClipProofs.computeDepthDelta_table. Qed.
+Print Assumptions computeDepthDelta_reads_original_ring.
+Example clipped_ring_orientation_refuted :
+  let c := ClipDefs.clip notch_box (map rpt_of notch_ring) in
+  all_int c = true /\ map zpt_of c = notch_clipped /\
+  is_ccw notch_ring = false /\ ring_ccw notch_ring = false /\ ring_ccw notch_clipped = false /\ is_ccw notch_clipped = true.
+Proof. exact ClipProofs.clipped_ring_orientation_refuted. Qed.
